@@ -13,8 +13,9 @@ Static rules (no FEAT3 code is executed) on the resolved program as seen by the 
       accumulate inside the entry loop, the per-entry update equals the documented formula;
   E2  index kinds in the sorted-merge products (add_double_mat_product, add_mat_mat_product), with the
       function's own XASSERTs as the only dimension equalities;
-  E7  'no silent drop' in the merge loops: the B-cursor only advances after the accumulate statement or under
-      allow_incomplete, every other way out aborts; the X-cursor is bounds-checked before it is dereferenced;
+  E7  'no silent drop' in the merge loops (path enumeration with helper inlining, lib/norm_c03): the B-cursor only
+      advances after the accumulate statement or under allow_incomplete, every other way out - inside or behind the
+      loop, in the product or in an extracted helper - aborts; both cursors are bounds-checked before dereference;
   (note) sibling agreement of the five merge loops.
 """
 import re
@@ -26,6 +27,7 @@ from featlib import Check, walk, render, is_call, rel
 from lafem_roles import (Unknown, strip_targs, defile, strip, Locals, perspective, objkey, accessor, const_value,
                          assertions, counting_loop, is_zero, flatten_if_chain, stmts, live_must_pass)
 from norm_c03 import Frame, MergeInterp
+from norm_c04 import fuse_while, loop_form, alias_value, EMPTY
 
 LAFEM = featlib.repo_path("kernel/lafem/")
 MATRIX_CLASSES = ("FEAT::LAFEM::SparseMatrixCSR", "FEAT::LAFEM::SparseMatrixBCSR")
@@ -391,15 +393,11 @@ class MKernel:
 
     # -- loops -------------------------------------------------------------------------------------
     def classify_for(self, node, env):
-        init, c, inc = node.get("init"), node.get("c"), node.get("inc")
-        if not (init and init.get("k") == "Decl" and len(init["vars"]) == 1 and c and c.get("k") == "Bin" and c.get("op") in ("<", "!=")
-                and inc and inc.get("k") == "Un" and inc.get("op") == "++"):
-            raise Unknown("loop at line %s is not a counting loop" % node.get("l"))
-        v = init["vars"][0]
-        lv, iv = strip(c["lhs"]), strip(inc["e"])
-        if not (lv.get("k") == "Ref" and lv.get("d") == v["d"] and iv.get("k") == "Ref" and iv.get("d") == v["d"]):
-            raise Unknown("loop at line %s does not count its own variable" % node.get("l"))
-        lo, hi = self.loc.resolve(v["init"]), self.loc.resolve(c["rhs"])
+        lf = loop_form(node)
+        if lf is None or lf["others"] or lf["down"] or lf["hi_off"]:
+            raise Unknown("loop at line %s is not an induction by steps of one over [lo, hi) (for(v=lo; v<hi; ++v) and its equivalent spellings)" % node.get("l"))
+        v = lf["vars"][lf["var"]]
+        lo, hi = self.loc.resolve(lf["lo"]), self.loc.resolve(lf["hi"])
         if is_zero(lo):
             if hi.get("k") == "Ref" and hi.get("dk") == "param" and hi.get("n") == "rows":
                 return v["d"], ROW
@@ -415,17 +413,29 @@ class MKernel:
             raise Unknown("loop bound `%s` at line %s" % (render(hi), node.get("l")))
         # entry loop: [row_ptr[ROW], row_ptr[ROW+1])
         if "ROW" in env:
+            def rp(n):
+                # affine expression over the entries of row_ptr and integers
+                n = self.loc.resolve(n)
+                if n.get("k") == "Int":
+                    return sympy.Integer(int(n["v"]))
+                if n.get("k") == "Bin" and n.get("op") in ("+", "-"):
+                    x, y = rp(n["lhs"]), rp(n["rhs"])
+                    return x + y if n["op"] == "+" else x - y
+                return self.cell(n)
             try:
-                a, b = self.cell(lo), self.cell(hi)
+                a, b = rp(lo), rp(hi)
             except Unknown:
                 raise Unknown("loop range [%s, %s) at line %s" % (render(lo), render(hi), node.get("l")))
-            if str(a) == "row_ptr@ROW" and str(b) == "row_ptr@ROW + 1":
+            if a == sympy.Symbol("row_ptr@ROW") and b == sympy.Symbol("row_ptr@ROW + 1"):
                 return v["d"], K
-            raise Wrong("entry loop at line %s ranges over [%s, %s), expected [row_ptr[row], row_ptr[row+1])" % (node.get("l"), a, b))
+            def show(e):
+                e = sympy.sympify(e)
+                return str(e.xreplace({y: sympy.Symbol("row_ptr[%s]" % str(y)[8:].replace(" ", "").lower()) for y in e.free_symbols if str(y).startswith("row_ptr@")}))
+            raise Wrong("entry loop at line %s ranges over [%s, %s), expected [row_ptr[row], row_ptr[row+1])" % (node.get("l"), show(a), show(b)))
         raise Unknown("loop range at line %s" % node.get("l"))
 
     def leaves(self, node, env, out):
-        for s in stmts(node):
+        for s in fuse_while(stmts(node)):
             if s.get("k") == "For":
                 d, role = self.classify_for(s, env)
                 if str(role) in env:
@@ -449,7 +459,10 @@ def analyse_matrix_kernel(ck, fn, struct):
         ck.ob("E2.matrix-kernel", key, True, "[%s] square template block: block-row and block-column loops are indistinguishable, decided on the rectangular instantiation" % inst, file, fn.line, trivial=True)
         return
     try:
-        top = [s for s in stmts(fn.body) if not (s.get("k") == "Decl")]
+        top = [s for s in fuse_while(stmts(fn.body)) if not (s.get("k") == "Decl")]
+        # `if(rows == 0) return;` in front does what zero iterations of the row loop do
+        top = [s for s in top if not (s.get("k") == "If" and s.get("else") is None and alias_value(s["c"], mk.loc, {}, [], size_name="rows") == EMPTY
+                                      and [x.get("k") for x in stmts(s["then"])] == ["Return"])]
         if len(top) != 1 or top[0].get("k") != "For":
             raise Unknown("body is not a single loop over the rows")
         out = []
@@ -871,22 +884,12 @@ def merge_enumeration(ck, fn, sig):
         mi = MergeInterp(fn, bobj="b", ai_name="allow_incomplete")
     except Unknown:
         return        # reported by E7.no-silent-drop
-    # dynamic chain of loops around the merge loop: (frame, loop node, id of the node inside its body that leads to the merge)
-    chain = []
+    # dynamic chain of loops around the merge loop (outermost first) and, per loop, the node of its body that leads to the merge
+    chain, leads = [], {}
     fr, inner = mi.merge_fr, mi.merge_node
     while fr is not None:
         for F in reversed(fr.loop_chains().get(inner.get("i"), [])):
-            chain.insert(0, (fr, F, inner.get("i")))
-            inner = F
-        if fr.parent is None:
-            break
-        inner = fr.call
-        fr = fr.parent
-    # fix the "leads to the merge" ids: for each chain loop it is the next chain element (or the merge loop / the call)
-    leads = {}
-    fr, inner = mi.merge_fr, mi.merge_node
-    while fr is not None:
-        for F in reversed(fr.loop_chains().get(inner.get("i"), [])):
+            chain.insert(0, (fr, F))
             leads[(fr.uid, F.get("i"))] = inner
             inner = F
         if fr.parent is None:
@@ -923,7 +926,7 @@ def merge_enumeration(ck, fn, sig):
                 return
         scan(fr.fn.body, [], [], {})
         return found
-    for fr, F, _ in chain:
+    for fr, F in chain:
         if F.get("k") != "For":
             continue
         if fr.uid not in found_by_frame:
@@ -1021,9 +1024,10 @@ def check_row_loops(ck, fn):
         if n.get("k") == "Var":
             declared[n["d"]] = n
     for loop in [n for n in fn.nodes() if n.get("k") == "For"]:
-        cl = counting_loop(loop)
-        if cl is None:
+        lf = loop_form(loop)
+        if lf is None or lf["others"] or lf["down"] or lf["hi_off"]:
             continue
+        cl = (lf["var"], lf["lo"], lf["hi"])
         a = accessor(loc, cl[2])
         if not (a and a["obj"] == "this" and a["name"] == "rows") or not is_zero(cl[1]):
             continue
@@ -1151,7 +1155,7 @@ def run(tier):
     ck.rule("E1.dispatch", "Arch wrappers of the matrix kernels forward each parameter to the like-named slot of the generic implementation of the same operation, on every path.", 46)
     ck.rule("E2.matrix-kernel", "generic kernels ScaleRows/ScaleCols/Lumping/RowNorm/Diagonal (csr and bcsr): outer loop over [0,rows), entry loop over [row_ptr[row],row_ptr[row+1]), every array subscripted by the index kind of its role (entry, row, col_ind[entry]; blocked affine forms), per-row results defined outside the entry loop (empty rows), reductions only accumulate inside the entry loop, per-entry term and result equal the documented formula. Broken for: rectangular matrices, empty rows, rows with more than one entry/block.", 46)
     ck.rule("E2.merge-kinds", "add_double_mat_product / add_mat_mat_product (CSR, BCSR): every subscript of row_ptr/col_ind/val/elements of X, D, A, B has the index kind the array needs (Row/NZ/Col/Dim of that object); kinds of different objects are equal only through the function's own XASSERTs; compared column indices live in the same space; cursors are bounded by the end of their own segment. Broken for: products of non-square factors.", 86)
-    ck.rule("E7.no-silent-drop", "merge loops: an entry of the right factor B is passed over only after the accumulate statement X_ij += w*B_lj ran in the same iteration (itself control dependent on equal column indices, reading B at the cursor) or on the true edge of allow_incomplete, where advancing the B cursor by exactly one is the only permitted effect (at most one advance per iteration); the loop is left early only under allow_incomplete AND with the X cursor at the end of its row (no slot can follow); every other way out reaches XABORTM; the X cursor is checked against the end of its row before it is dereferenced and passes a slot only after serving it or when its column is smaller than the current B column. Broken for: output patterns poorer than the product pattern (silently wrong values instead of the documented abort), rows of X shorter than rows of B.", 7)
+    ck.rule("E7.no-silent-drop", "merge loops (in the product itself or in a helper it calls, whatever the spelling: while/for, refusal inside or behind the loop, break / status return / status flag): on every path through one iteration an entry of the right factor B is passed over only after the accumulate statement X_ij += w*B_lj served it (itself executed only where the two column indices are equal, reading B at the cursor) or where allow_incomplete is known to be true, where advancing the B cursor by exactly one is the only permitted effect (at most one advance per iteration); every path that leaves the merge with entries of B remaining either reaches XABORTM or has allow_incomplete true AND the X cursor at the end of its row (no slot can follow); both cursors are checked against the end of their row before they are dereferenced, and the X cursor passes a slot only after serving it or when its column is smaller than the current B column. Broken for: output patterns poorer than the product pattern (silently wrong values instead of the documented abort), rows of X shorter than rows of B.", 7)
     ck.rule("E7.full-enumeration", "merge products: the for loops over the rows of X/D, the entries D_ik and the entries A_kl that enclose the sorted-merge loop are left only through their own loop condition (or XABORTM): no break / return inside them, no continue that skips the merge. Each iteration adds an independent term of sum_k sum_l alpha*D_ik*A_kl*B_l.; no condition on the cursors of the current B row says anything about later rows. Broken for: allow_incomplete with an output row that ends before a row of B, followed by further entries A_kl' whose rows hit existing slots.", 19)
     ck.rule("E2.row-loop-state", "container-level row loops of the matrix-algebra members (extract_diag): the value stored for row i into an output vector depends only on loop-invariant data and on locals that are fresh (declared, or unconditionally re-initialised at the top) in every iteration. Broken for: rows that take no assigning path (block rows without a diagonal block after a row that has one) - they return the value of an earlier row instead of 0.", 3)
     ck.rule("E1.result-dims", "matrix-algebra members that re-create *this (shrink) construct the result with rows_in <- rows(), columns_in <- columns() of the receiver (or of an operand asserted equal) on every exit, and all exits agree. Broken for: non-square matrices on the special-case exit (all entries dropped).", 3)
@@ -1238,12 +1242,12 @@ def run(tier):
         ck.note("sibling merge loops differ in their normalised cursor logic: majority %s; deviating: %s" % (sorted(set(groups[0][1])), [sorted(set(g[1])) for g in groups[1:]]))
     elif sib:
         ck.note("sibling agreement: all %d merge loops (%s) have identical normalised cursor logic" % (len(set(list(sib.values())[0])), ", ".join(sorted(set(list(sib.values())[0])))))
-    ck.assume("E7 is decided on clang's CFG of the instantiated members; the accumulate statement is the unique statement of the merge loop that writes this->val()[cursor]")
+    ck.assume("E7 is decided by path enumeration over the statement trees of the instantiated members with repository helpers inlined (lib/norm_c03); each loop is entered in an arbitrary state of the variables it writes (one generic iteration); the accumulate statement is the unique statement that writes this->val()[cursor]; the right factor is the parameter named b")
     ck.assume("sortedness of column indices inside a row (precondition of a sorted merge) is an input contract of CSR/BCSR and not checked here")
     ck.assume("numerical equality with the dense formulas, min/max tie-breaking, ProductMatMat (DenseMatrix only; no call site in the CSR/BCSR anchors) and the vector kernels shared with C04 (Axpy/Scale/Norm2/Min/Max index: decided in C04) are not decided here")
     return ck.finish(
         "Static rules over the clang-resolved program (driver tu/c03_matrices.cpp: SparseMatrixCSR<double>, SparseMatrixBCSR<double,3,3> and <double,2,3>%s): role agreement at every Arch call site of the matrix "
         "algebra members (slots named by the callee's parameters, perspectives, block dimensions, vector length guards incl. debug ASSERTs), index-kind and formula conformance of the generic "
         "scale_row_col/lumping/row_norm/diagonal kernels (loop ranges, subscript kinds, empty rows, accumulate-only reductions), index kinds of the sorted-merge products under the functions' own "
-        "XASSERT equalities, and the CFG path rule that no entry of the right factor is skipped without accumulation unless allow_incomplete is true while every other exit aborts. Symbolic in "
+        "XASSERT equalities, and the path rule (all paths of one generic merge iteration and of the code behind the loop, helpers inlined) that no entry of the right factor is skipped without accumulation unless allow_incomplete is true while every other way out aborts. Symbolic in "
         "sizes and patterns; template arguments are those of the driver." % (" + float/uint32 + repo test TUs" if tier == "thorough" else ""))
